@@ -285,3 +285,40 @@ func truthPredecessors(nodes []vnode, m *refModel, j int) []string {
 	sort.Strings(keys)
 	return keys
 }
+
+
+func must(err error) {
+	if err != nil {
+		panic(err)
+	}
+}
+
+func newBytesReader(b []byte) *bytes.Reader { return bytes.NewReader(b) }
+
+func sprintf(f string, a ...any) string { return fmt.Sprintf(f, a...) }
+
+func sortStrings(s []string) { sort.Strings(s) }
+
+// applyHistoryTags: n symbolic Tag/Untag operations (tags moved between nodes, tagged referrers).
+func applyHistoryTags(ctx context.Context, s *Store, nodes []vnode, m *refModel, n int) {
+	for step := 0; step < n; step++ {
+		switch verifrt.Choice(3) {
+		case 0:
+		case 1:
+			i := verifrt.Choice(len(nodes))
+			ref := ociRefs[verifrt.Choice(len(ociRefs))]
+			verifrt.Event(fmt.Sprintf("Tag(node%d,%s)", i, ref))
+			if err := s.Tag(ctx, nodes[i].desc, ref); err == nil {
+				m.tags[ref] = i
+			}
+		case 2:
+			ref := ociRefs[verifrt.Choice(len(ociRefs))]
+			if _, ok := m.tags[ref]; ok {
+				verifrt.Event(fmt.Sprintf("Untag(%s)", ref))
+				if err := s.Untag(ctx, ref); err == nil {
+					delete(m.tags, ref)
+				}
+			}
+		}
+	}
+}
